@@ -12,7 +12,7 @@ func init() {
 		ID:         "C14",
 		Level:      "other",
 		Technique:  "ownership rules: every store of byte-slice data into a message made by a decoder or by merge/clone stores a fresh copy (idiom recognition on all sinks), who-may-set rule on the alias flag, copy-before-retain dominance for the lazy buffer, use-only-as-argument rule for the reader's peeked buffer (static)",
-		Explain:    "Decides structural necessary conditions of `decoded and cloned messages never alias caller memory`: (1) every bytes-typed store performed by a fast-path unmarshal function (accessors Bytes/BytesSlice, ValueOfBytes results, list appends) and by the reflection decoder's BytesKind branches stores append(emptyBuf[:], v...) — a fresh copy of the consumed input — never the input slice itself; (2) unknown-field bytes are only appended to the message's own slice, never assigned from a slice of the input; (3) the lazy decoder retains the input buffer only after copying it unless the alias flag is set, and the alias flag is set only there (after the copy) and in the options used to decode from the message-owned lazy buffer; (4) merge and clone copy byte strings and pointer scalars and deep-copy list/map message elements (R-MERGE-CLASS, R-MERGE-REFLECT); (5) protodelim hands the reader's peeked buffer only to Unmarshal and does not retain it; (6) the JSON and text string scanners, which unescape into a slice of their input, clip that slice's capacity so that appending never writes into the caller's input. Value coders (extensions, map values) are covered as well: every valueCoderFuncs literal's merge function has the effect class required by what its marshal function encodes (messages merged or cloned, bytes copied, only scalars and strings shared), and the reflection merge tests one descriptor per copy decision — the map value descriptor for map values — and clones bytes.",
+		Explain:    "Decides structural necessary conditions of `decoded and cloned messages never alias caller memory`: (1) every bytes-typed store performed by a fast-path unmarshal function (accessors Bytes/BytesSlice, ValueOfBytes results, list appends) and by the reflection decoder's BytesKind branches stores append(emptyBuf[:], v...) — a fresh copy of the consumed input — never the input slice itself; (2) unknown-field bytes are only appended to the message's own slice, never assigned from a slice of the input; (3) the lazy decoder retains the input buffer only after copying it unless the alias flag is set, and the alias flag is set only there (after the copy) and in the options used to decode from the message-owned lazy buffer; (4) merge and clone copy byte strings and pointer scalars and deep-copy list/map message elements (R-MERGE-CLASS, R-MERGE-REFLECT); (5) protodelim hands the reader's peeked buffer only to Unmarshal and does not retain it; (6) the JSON and text string scanners, which unescape into a slice of their input, clip that slice's capacity so that appending never writes into the caller's input. Value coders (extensions, map values) are covered as well: every valueCoderFuncs literal's merge function has the effect class required by what its marshal function encodes (messages merged or cloned, bytes copied, only scalars and strings shared), and the reflection merge tests one descriptor per copy decision — the map value descriptor for map values — and clones bytes. Also: the reflective decoder's SetUnknown argument is appended onto the message's own unknown bytes, never a sub-slice of the input parameter; the text decoder's unescape buffer is a three-index slice of the input.",
 		NotCovered: "aliasing introduced by user-provided Methods or by reflection Set calls made by the caller; string data (immutable, conversion copies by language semantics); sharing of immutable descriptor/type data.",
 		Quick:      all("./internal/impl", "./proto", "./encoding/protodelim", "./internal/encoding/json", "./internal/encoding/text"),
 		Thorough:   allAndLegacy("./internal/impl", "./proto", "./encoding/protodelim", "./internal/encoding/json", "./internal/encoding/text"),
